@@ -192,31 +192,37 @@ class _Oracle:
             self.check_pending()
 
 
-def _history(ds, op, target, where, arg, a1, a2):
+def _history(ds, mods, a1, a2):
+    # mods: list of (op, target, where, arg); where: i < n inside running call i, n before the first
+    # advance, n+1 between the two advances, n+2 after both
     n = len(ds)
     clock = Clock()
     o = _Oracle(clock)
-    done = []
+    done = [False] * len(mods)
+
+    def at(place):
+        for k in range(len(mods)):
+            op, target, where, arg = mods[k]
+            if where == place and not done[k]:
+                done[k] = True
+                o.modify(op, target, arg, mkfn)
 
     def mkfn(i):
         def fire():
             o.on_run(i)
-            if where == i and not done:
-                done.append(1)
-                o.modify(op, target, arg, mkfn)
+            if i < n:
+                at(i)
         return fire
 
     for i in range(n):
         o.created(clock.callLater(ds[i], mkfn(i)), ds[i])
     o.check_pending()
-    # creation order of equal times is visible in getDelayedCalls before anything ran
-    if where == n:
-        o.modify(op, target, arg, mkfn)
-    if where == n + 1:
+    at(n)
+    if any(m[2] == n + 1 for m in mods):
         o.begin_advance(a1)
         clock.advance(a1)
         o.end_advance()
-        o.modify(op, target, arg, mkfn)
+        at(n + 1)
         o.begin_advance(a2)
         clock.advance(a2)
         o.end_advance()
@@ -229,8 +235,7 @@ def _history(ds, op, target, where, arg, a1, a2):
         clock.pump(timings())
         if o.adv_no != 2 or o.in_advance:
             return False
-    if where == n + 2:
-        o.modify(op, target, arg, mkfn)
+    at(n + 2)
     cover()
     if not o.ok:
         return False
@@ -258,7 +263,7 @@ def hist3(d0: float, d1: float, d2: float, op: int, target: int, where: int, arg
     pre: op != 0 or where == 3
     post: _
     """
-    return _history([d0, d1, d2], op, target, where, arg, a1, a2)
+    return _history([d0, d1, d2], [(op, target, where, arg)], a1, a2)
 
 
 def hist4(d0: float, d1: float, d2: float, d3: float, op: int, target: int, where: int, arg: float,
@@ -272,7 +277,7 @@ def hist4(d0: float, d1: float, d2: float, d3: float, op: int, target: int, wher
     pre: op != 0 or where == 4
     post: _
     """
-    return _history([d0, d1, d2, d3], op, target, where, arg, a1, a2)
+    return _history([d0, d1, d2, d3], [(op, target, where, arg)], a1, a2)
 
 
 def plain5(d0: float, d1: float, d2: float, d3: float, d4: float, a1: float, a2: float) -> bool:
@@ -280,7 +285,21 @@ def plain5(d0: float, d1: float, d2: float, d3: float, d4: float, a1: float, a2:
     pre: d0 >= 0 and d1 >= 0 and d2 >= 0 and d3 >= 0 and d4 >= 0 and a1 >= 0 and a2 >= 0
     post: _
     """
-    return _history([d0, d1, d2, d3, d4], 0, 0, 6, 0.0, a1, a2)
+    return _history([d0, d1, d2, d3, d4], [], a1, a2)
+
+
+def two_mods(d0: float, d1: float, opA: int, tgA: int, argA: float, opB: int, tgB: int, whB: int, argB: float,
+             a1: float, a2: float) -> bool:
+    """
+    pre: d0 >= 0 and d1 >= 0 and a1 >= 0 and a2 >= 0
+    pre: 2 <= opA <= 3 and 0 <= tgA < 2 and (opA == 3 or argA >= 0)
+    pre: 1 <= opB <= 3 and 0 <= tgB < 2 and (opB == 3 or argB >= 0) and (opB != 1 or argB == 0)
+    pre: whB == 0 or whB == 1 or whB == 3
+    post: _
+    """
+    # modification A (reset/delay) before the first advance, then modification B (cancel/reset/delay) from
+    # inside a running call or between the advances: accumulation of delayed_time / activate_delay
+    return _history([d0, d1], [(opA, tgA, 2, argA), (opB, tgB, whB, argB)], a1, a2)
 
 
 def _shards(n):
@@ -302,11 +321,22 @@ def _shards(n):
 
 HARNESSES = [
     H(hist3, shards=_shards(3), timeout={"quick": 60, "thorough": 300}, tiers=("quick", "thorough")),
+    H(two_mods, shards=lambda tier: [("opA == %d" % x, "opB == %d" % y, "whB == %d" % w) + tg
+                                     for x in (2, 3) for y in (1, 2, 3) for w in (0, 1, 3)
+                                     for tg in ([("tgA == tgB",)] if tier == "quick" else
+                                                [("tgA == tgB",), ("tgA != tgB",)])],
+      timeout={"quick": 60, "thorough": 300},
+      note="quick: both modifications hit the same call (accumulated delayed_time); thorough: any targets"),
     H(hist4, shards=_shards(4), timeout={"quick": 60, "thorough": 1200}, tiers=("thorough",)),
     H(plain5, timeout={"quick": 60, "thorough": 1200}, tiers=("thorough",)),
 ]
 
 VECTORS = {
+    "two_mods": [
+        (1.0, 2.0, 2, 0, 3.0, 3, 0, 3, -1.0, 1.0, 3.0),   # reset later, then negative delay of the same call
+        (1.0, 2.0, 3, 1, 1.0, 3, 1, 0, 0.5, 1.0, 3.0),    # delay twice (second from inside call 0)
+        (1.0, 2.0, 3, 0, -0.5, 2, 0, 1, 0.0, 2.0, 0.0),
+    ],
     "hist3": [
         (1.0, 1.0, 2.0, 0, 0, 3, 0.0, 1.0, 1.0),
         (1.0, 2.0, 3.0, 1, 2, 0, 0.0, 1.5, 2.0),       # call 0 cancels call 2
